@@ -116,10 +116,12 @@ fn verif_native_reader_witness() {
         if got.as_ref().map(|g| g != want).unwrap_or(true) && bad.len() < 5 { bad.push(format!("{:?} reads as {:?}, expected {:?}", text, got, want)); }
     }
     // data -> values (read_literal / eval_primitive): the kind of every leaf survives quoting, at every nesting
-    let programs: [(&str, &str); 16] = [
+    let programs: [(&str, &str); 21] = [
         ("(string? (car (cdr '(a \"b\" #\\c))))", "datum #t"), ("(symbol? (car '(a \"b\")))", "datum #t"), ("(char? (car (cdr (cdr '(a \"b\" #\\c)))))", "datum #t"),
         ("(symbol? (vector-ref '#(a \"b\") 0))", "datum #t"), ("(string? (vector-ref '#(a \"b\") 1))", "datum #t"),
         ("(= (car (cdr '(1 2/4 -3))) 1/2)", "datum #t"), ("(= (vector-ref '#(1 -2/4) 1) -1/2)", "datum #t"), ("(= (car (cdr (cdr '(1 2/4 -3)))) -3)", "datum #t"),
+        ("(= (car '(-1/3)) (- 1/3))", "datum #t"), ("(= -7/3 (- 7/3))", "datum #t"), ("(= (cdr '(a . -4/7)) (- 4/7))", "datum #t"),
+        ("(= (vector-ref '#(1 (-1/5) -6/5) 2) (- 6/5))", "datum #t"), ("(= (* 3 '7/3) 7)", "datum #t"),
         ("(boolean? (car '(#f)))", "datum #t"), ("(car '(#f))", "datum #f"), ("(null? (vector-ref '#(()) 0))", "datum #t"),
         ("(vector? (cdr '(1 . #(2))))", "datum #t"), ("(vector-ref (cdr '(1 . #(2 3))) 1)", "datum 3"),
         ("(vector? (car (cdr '(1 #(2)))))", "datum #t"), ("(pair? (vector-ref '#((1 . 2)) 0))", "datum #t"), ("(cdr (vector-ref '#((1 . 2)) 0))", "datum 2"),
